@@ -140,8 +140,7 @@ impl ConditionallySelectable for Fq {
         for i in 0..4 {
             out[i] = u64::conditional_select(&a_limbs[i], &b_limbs[i], choice);
         }
-        let bigint = BigInt::new(out);
-        Self(ArkworksFq::new(bigint))
+        Self::from_montgomery_limbs(out)
     }
 }
 
